@@ -114,18 +114,19 @@ def hist_neg_control(ctx, bug, want):
 def replay_stress(ctx, rng, case, mode, big):
     """one size-stressed concretization of an enumerated text (notes/SIZE_STRESS.md)"""
     lines, contents, struct = cc.stress_case(rng, case["t"], case["doc"], mode, big)
-    msg = cc.c04_check(lines, contents, struct)
+    form = rng.choice(cc.FORMS)
+    msg = cc.c04_check(lines, contents, struct, form=form, mutate=len(lines) if not big else None)
     ctx.case_seen(("stress", mode, "".join(x[0] for x in case["t"])), True)
     if msg:
         keep = len(lines) <= 400
         ctx.violation({"kind": "case", "classes": case["t"], "lines": lines if keep else lines[:400], "contents": contents if keep else contents[:400],
-                       "struct": struct if keep else {"ini": [], "bl": []}, "stress": mode, "truncated": not keep},
+                       "struct": struct if keep else {"ini": [], "bl": []}, "stress": mode, "truncated": not keep, "form": form},
                       "size-stressed concretization (%s, %d lines, %d blocks): %s" % (mode, len(lines), len(struct["bl"]), msg))
         return False
     return True
 
 
-def replay_case(ctx, rng, case, k, key, canonical_first, alive=None):
+def replay_case(ctx, rng, case, k, key, canonical_first, alive=None, ci=0):
     """k concretizations.  canonical_first: the first one is the canonical minimal form; otherwise the
     canonical form is only tried after a failure, to attribute it to structure or to payload"""
     classes = case["t"]
@@ -134,14 +135,19 @@ def replay_case(ctx, rng, case, k, key, canonical_first, alive=None):
     for j in range(k):
         canonical = canonical_first and j == 0
         lines, contents = cc.conc_text(rng, classes, canonical=canonical, empty_blank=True)
-        msg = cc.c04_check(lines, contents, struct, alive if j == k - 1 else None)
+        # the text arrives in every documented input form in turn; every 5th case the Version objects handed
+        # out are edited in place afterwards and the text is parsed again
+        form = cc.FORMS[(ci + j) % len(cc.FORMS)]
+        msg = cc.c04_check(lines, contents, struct, alive if j == k - 1 else None, form=form,
+                           mutate=(ci + j) if (ci % 5 == 0 and j == k - 1) else None)
         ctx.case_seen(key, nontrivial)
         if msg:
             if not canonical:
                 cl, cc_ = cc.conc_text(rng, classes, canonical=True, empty_blank=True)
-                m2 = cc.c04_check(cl, cc_, struct)
+                m2 = cc.c04_check(cl, cc_, struct, form=form, mutate=(ci + j) if ci % 5 == 0 else None)
                 msg += " [canonical concretization of the same structure: %s]" % ("fails too: " + m2 if m2 else "passes, so the payload matters")
-            ctx.violation({"kind": "case", "classes": classes, "lines": lines, "contents": contents, "struct": struct}, msg)
+            ctx.violation({"kind": "case", "classes": classes, "lines": lines, "contents": contents, "struct": struct, "form": form,
+                           "mutate": (ci + j) if (ci % 5 == 0 and j == k - 1) else None}, msg)
             return False
     return True
 
@@ -161,12 +167,12 @@ def run(ctx):
     traces = []
     for i in range(ntr):
         _cls, lines, _ = cc.gen_wellformed(rng, rng.choice([6, 12, 25, maxlines]))
-        traces.append(cc.record_parse_trace(lines, aea=bool(i % 5 == 0), wf=True, doc_every=7))
+        traces.append(cc.record_parse_trace(lines, aea=bool(i % 5 == 0), wf=True, doc_every=7, form=cc.FORMS[i % len(cc.FORMS)]))
     # formatting histories on well-formed changelogs: calls on any block through the block object, in-place
     # container edits, str(block); the changelog is formatted after some calls only (C04 domain: wf = True)
     for i in range(ntr // 2):
         _cls, lines, _ = cc.gen_wellformed(rng, rng.choice([4, 8, 14, 20]))
-        t = cc.record_edit_trace(rng, lines, aea=False, nops=rng.randint(2, 12), wf=True, stress=(i % 10 == 9))
+        t = cc.record_edit_trace(rng, lines, aea=False, nops=rng.randint(2, 12), wf=True, stress=(i % 10 == 9), form=cc.FORMS[(i * 3) % len(cc.FORMS)])
         if t is None:
             ctx.violation({"kind": "case", "classes": [], "lines": lines, "contents": [], "struct": {"ini": [], "bl": []}}, "lenient constructor raised on a well-formed text")
             continue
@@ -203,7 +209,7 @@ def run(ctx):
     big_at = {len(cases) // 3, 2 * len(cases) // 3} if quick else set(range(0, len(cases), max(1, len(cases) // 8)))
     for ci, c in enumerate(cases):
         if not replay_case(ctx, rng, c, k, "case:" + "".join(x[0] for x in c["t"]), canonical_first=quick,
-                           alive=alive if ci % every == 0 else None):
+                           alive=alive if ci % every == 0 else None, ci=ci):
             if len(ctx.violations) >= 5:
                 break
         n += 1
@@ -270,13 +276,13 @@ def run(ctx):
         at = info.get(i, 0)
         if t["kind"] == "edit":
             ev = t["ops"][at] if at < len(t["ops"]) else None
-            ctx.violation({"kind": "trace", "trace": {"kind": "edit", "text": t["text"], "aea": t["aea"], "wf": True, "calls": t["calls"]},
+            ctx.violation({"kind": "trace", "trace": {"kind": "edit", "text": t["text"], "aea": t["aea"], "wf": True, "calls": t["calls"], "iform": t["iform"]},
                            "first_unexplained_event": at + 1},
                           "history on a well-formed changelog, call %d %r: %s" % (
                               at + 1, [t["calls"][at][k] for k in ("op", "i", "x")] if at < len(t["calls"]) else None,
                               "the formatted text is not the text of the current document / not a normal form" if ev and ev.get("ok") else "unexpected exception"))
             continue
-        ctx.violation({"kind": "trace", "trace": {"kind": "parse", "text": t["text"], "aea": t["aea"], "wf": True},
+        ctx.violation({"kind": "trace", "trace": {"kind": "parse", "text": t["text"], "aea": t["aea"], "wf": True, "iform": t["iform"]},
                        "first_unexplained_line": at + 1},
                       "well-formed changelog: observation after line %d (%r) not explained by the specification: %s"
                       % (at + 1, t["text"][at] if at < len(t["text"]) else None,
@@ -291,10 +297,9 @@ def replay(ctx, case):
         for c in contents:
             if isinstance(c, dict):
                 c["pairs"] = [tuple(p) for p in c["pairs"]]
-        return cc.c04_check(case["lines"], contents, case["struct"])
+        return cc.c04_check(case["lines"], contents, case["struct"], form=case.get("form", "str"), mutate=case.get("mutate"))
     if case["kind"] == "hist":
-        contents = [tuple(c) if isinstance(c, list) else c for c in case["contents"]]
-        return cc.run_hist(dict(case, contents=contents), c04=True)
+        return cc.run_hist(dict(case, contents=cc.norm_contents(case["contents"]), tail_contents=cc.norm_contents(case.get("tail_contents", []))), c04=True)
     if case["kind"] == "alive":
         return "cross-object interference is not replayable from a single case; re-run ./check C04 (%s)" % case.get("note")
     if case["kind"] == "trace":
